@@ -1,0 +1,91 @@
+//! Verification hooks, compiled only with the cargo feature `verif`.
+//!
+//! A thread-local log of what the simulator does: every event it processes
+//! (with the private `bypass` / `replace` flags), every action a framework
+//! returns, the decisions of `pick_next` and of the network stack, and why the
+//! main loop ended. Off until [`enable`] is called; drained with [`take`].
+//! Nothing here changes the behaviour of the simulator.
+
+use std::cell::RefCell;
+use std::time::{Duration, Instant};
+
+use maybenot::TriggerAction;
+
+use crate::SimEvent;
+
+#[derive(Debug, Clone)]
+pub enum Rec {
+    /// an event picked by the main loop, after time was advanced
+    Event {
+        event: SimEvent,
+        bypass: bool,
+        replace: bool,
+    },
+    /// an action returned by a framework in `trigger_update`
+    Action {
+        client: bool,
+        action: TriggerAction,
+        time: Instant,
+    },
+    /// a decision of `pick_next`: "aggregate", "blocking", "queue", "timer", "action"
+    Pick { what: &'static str, client: bool },
+    /// the blocking state of a side after an action timer fired a BlockOutgoing
+    BlockSet {
+        client: bool,
+        until: Option<Instant>,
+        bypassable: bool,
+        updated: bool,
+    },
+    /// a padding with the replace flag met a queued normal packet:
+    /// dropped in favour of it, or the packet was re-queued as bypassable
+    Replaced { client: bool, requeued: bool },
+    /// a TunnelRecv was queued at the recipient
+    RecvScheduled {
+        client: bool,
+        time: Instant,
+        padding: bool,
+    },
+    /// an aggregate base delay was pushed
+    AggregatePushed { client: bool, delay: Duration },
+    /// the main loop ended
+    Exit {
+        reason: &'static str,
+        iterations: usize,
+        trace_len: usize,
+    },
+}
+
+thread_local! {
+    static LOG: RefCell<Option<Vec<Rec>>> = const { RefCell::new(None) };
+}
+
+/// Start recording on this thread.
+pub fn enable() {
+    LOG.with(|l| *l.borrow_mut() = Some(Vec::new()));
+}
+
+/// Stop recording on this thread.
+pub fn disable() {
+    LOG.with(|l| *l.borrow_mut() = None);
+}
+
+/// Drain the records made on this thread since the last call.
+pub fn take() -> Vec<Rec> {
+    LOG.with(|l| match l.borrow_mut().as_mut() {
+        Some(v) => std::mem::take(v),
+        None => Vec::new(),
+    })
+}
+
+pub(crate) fn rec(f: impl FnOnce() -> Rec) {
+    LOG.with(|l| {
+        if let Some(v) = l.borrow_mut().as_mut() {
+            v.push(f());
+        }
+    });
+}
+
+/// The private flags of an event (for drivers that hold a `SimEvent`).
+pub fn flags(e: &SimEvent) -> (bool, bool) {
+    (e.bypass, e.replace)
+}
